@@ -20,7 +20,8 @@ from harness.checks.c01 import reg_enthalpy
 from harness.trace import GEN_HEADER, NpProxy, Sym, Trace, rebind, symarray, to_lean, used_vars
 
 
-def trace_core(rng, positions, tag):
+def sym_core(rng, positions, tag):
+    """symbolic shadow of the gap of a real small core: returns (o, core, tr, m, g, td, dz, sym_ok)"""
     import dassh
     from dassh.core import Core
     case = gi.random_case(rng, positions=positions, n_types=2, gap_model='flow', length=0.1,
@@ -62,6 +63,7 @@ def trace_core(rng, positions, tag):
     g = G()
     g.thermal_conductivity = tr.var("kc", 60.0)
     g.heat_capacity = tr.var("cp", 1270.0)
+    g.temperature = 650.0
     o.gap_coolant = g
     o.coolant_gap_params = dict(core.coolant_gap_params)
     o.coolant_gap_params['htc'] = symarray(tr, "h", np.full(n, 2.0e4))
@@ -72,6 +74,16 @@ def trace_core(rng, positions, tag):
         for l in range(shape[1]):
             td[a, l] = tr.var("Td_%d_%d" % (a, l), 660.0) if core._asm_sc_adj[a, l] > 0 else tr.const(0)
     dz = tr.var("dz", 1e-3)
+    import shutil
+    shutil.rmtree(d, ignore_errors=True)
+    return o, core, tr, m, g, td, dz, sym_ok
+
+
+def trace_core(rng, positions, tag):
+    from dassh.core import Core
+    o, core, tr, m, g, td, dz, sym_ok = sym_core(rng, positions, tag)
+    n = int(core.n_sc)
+    shape = core._asm_sc_adj.shape
     rebind(Core._update_energy_balance, tr)(o, dz, td)
     dT = rebind(Core._flow_model, tr)(o, dz, td)
     lhs = 0
@@ -82,8 +94,6 @@ def trace_core(rng, positions, tag):
         for l in range(shape[1]):
             if core._asm_sc_adj[a, l] > 0:
                 rhs = rhs + o.ebal['asm'][a, l]
-    import shutil
-    shutil.rmtree(d, ignore_errors=True)
     return lhs, rhs, dict(n_cells=n, n_asm=int(shape[0]), rcond_symmetric=sym_ok)
 
 
